@@ -89,6 +89,23 @@ def native_model(shape, seed, container="set", cse=True, transcendental=False, b
                     break
             kept.append((f"trajectory step {step}", nxt, wants))
             cur = nxt
+        # inputs of another dtype: a State built with from_data from an INTEGER (and a float32) array is a finite input like any other
+        import numpy as np
+
+        ipt = {kk: (Fraction(round(float(v)) or 1) if kk in sc.state else v) for kk, v in pts[0].items()}
+        for dtype in (np.int64, np.float32):
+            data = np.zeros((n, 1), dtype=dtype)
+            for idx, s in enumerate(model.arglist_state):
+                data[idx, 0] = int(ipt[s])
+            st = model.State.from_data(data)
+            control = model.Control(**{u.name: float(ipt[u]) for u in sc.control}) if k else None
+            out = model.model(float(ipt[sc.dt]), st, control) if k else model.model(float(ipt[sc.dt]), st)
+            for idx, s in enumerate(model.arglist_state):
+                want = float(scenarios.exact(sc.state_model[s], ipt)) if not transcendental else float(sc.state_model[s].subs({kk: float(v) for kk, v in ipt.items()}))
+                got = float(out.data[idx, 0])
+                if abs(got - want) > 1e-9 * max(1.0, abs(want)):
+                    problems.append(f"compiled model (cse={cse}) given a State of dtype {np.dtype(dtype).name}: returns {got} for state {s.name}, its update expression evaluates to {want}")
+                    break
         for call_no, out, wants in kept:
             for idx, s in enumerate(model.arglist_state):
                 if abs(float(out.data[idx, 0]) - wants[idx]) > 1e-7 * max(1.0, abs(wants[idx])):
